@@ -446,6 +446,9 @@ func (p *dPkg) delegatesToYAML(fd *ast.FuncDecl) bool {
 
 // templates of the generated reference wrappers and of the map-like containers; K = wrapper type, V = value type
 const refMarshalYAML = `{ if ref := x.Ref; ref != "" { return &Ref{Ref: ref}, nil } return x.Value.MarshalYAML() }`
+
+// the template after the repair of the nil dereference: a wrapper with neither $ref nor value is written as null
+const refMarshalYAMLGuarded = `{ if ref := x.Ref; ref != "" { return &Ref{Ref: ref}, nil } if x.Value == nil { return nil, nil } return x.Value.MarshalYAML() }`
 const refUnmarshal = `{
 	var refOnly Ref
 	if extra, err := marshmallow.Unmarshal(data, &refOnly, marshmallow.WithExcludeKnownFieldsFromMap(true)); err == nil && refOnly.Ref != "" {
@@ -606,7 +609,10 @@ func extractDescriptors(repo string) (string, error) {
 						}
 					}
 				}
-				k.uniform = p.bodyIs(ms["MarshalYAML"], refMarshalYAML) && p.bodyIs(ms["UnmarshalJSON"], refUnmarshal, "ORIGIN", origin) &&
+				if p.bodyIs(ms["MarshalYAML"], refMarshalYAMLGuarded) {
+					k.nilSafe = true // the wrapper itself checks Value before calling its marshaller
+				}
+				k.uniform = (p.bodyIs(ms["MarshalYAML"], refMarshalYAML) || p.bodyIs(ms["MarshalYAML"], refMarshalYAMLGuarded)) && p.bodyIs(ms["UnmarshalJSON"], refUnmarshal, "ORIGIN", origin) &&
 					recvName(ms["MarshalYAML"]) == "x" && recvName(ms["MarshalJSON"]) == "x" && recvName(ms["UnmarshalJSON"]) == "x"
 			case "maplike":
 				vt := fieldType(st, "m")
